@@ -42,6 +42,13 @@ PROPS["C04"] = dict(
 )
 
 PROPS["C06"] = dict(
+    registered=True,
+    level_text="Kernel-checked round-trip theorems for every value of each modelled object type: string lists (cells up to 65535 bytes, rows of any total size), blocks, uint lists, "
+               "table and commit objects, the 16-byte time field (all representable instants and whole-minute zones; everything else refused at write time), and the packfile length header "
+               "(every type, every 64-bit length incl. 0, any non-under-estimating bit count); injectivity of row/block encodings; over-long cells and text fields are rejected at write time. "
+               "Correspondence: Go WriteTo bytes == model bytes and Go ReadFrom value == model value on generated objects incl. 64 KiB-crossing rows; Save* keys == prefix ++ meow(content).",
+    level_note=LEVEL_NOTE + "Modelled rather than verified: the encoders/decoders transcribed by hand at whole-buffer (io.ReadFull) semantics; block index and table profile objects are compared "
+               "on the implementation only; meow and s2 are parameters. Known finding: zone offsets with seconds are truncated to minutes.",
     lean_modules=["WrglModel.Props.C06"],
     quick_n=1600, thorough_n=24000,
     rule="generated values per object type (string lists incl. 65534..131072-byte cells, blocks of 0..255 rows, table and "
@@ -117,6 +124,12 @@ PROPS["C20"] = dict(
 )
 
 PROPS["C15"] = dict(
+    registered=True,
+    level_text="Kernel-checked refinement theorem C15_refines: for ALL operation sequences (set, logged set, get, delete, filter, filter-keys, rename, copy, log read, list by prefix, "
+               "bulk delete, bulk rename) the SQL model returns step by step what a plain name->value map with per-name append-only logs returns, given literal-prefix filtering "
+               "(an extracted fact; the LIKE variant is proved NOT to refine the map). Correspondence: every return value of the real SQLite store equals both models' on generated sequences "
+               "over names with '_', '%', case variants and nested prefixes.",
+    level_note=LEVEL_NOTE + "Modelled rather than verified: each SQL statement as a list operation (SQLite semantics as modelled are an assumption validated by the runs); the file-backed ref store is not covered.",
     lean_modules=["WrglModel.Props.C15"],
     quick_n=400, thorough_n=6000,
     rule="operation sequences (5..35 ops quick, ..65 thorough, then a full dump of refs and logs) of set / logged set / get / delete / "
@@ -127,4 +140,25 @@ PROPS["C15"] = dict(
              "pkg/ref/refs.go (listRefs, DeleteAllRemoteRefs, RenameAllRemoteRefs)",
     assumptions=["SQLite executes each statement/transaction atomically with the semantics modelled (upsert, PK conflict, NOT NULL, substr/length on ASCII names); validated by the correspondence runs",
                  "ref names are ASCII"],
+)
+
+PROPS["C17"] = dict(
+    widen_n=3000,
+    lean_modules=["WrglModel.Props.C17"],
+    quick_n=600, thorough_n=12000,
+    rule="per decoder entry point (packfile reader, commit, table, block, ValidateBlockBytes, block index, string list, uint list, pkt-line, "
+         "table profile) mutations of valid encodings: truncation at EVERY offset of every third object, bit flips, inflated 16/32-bit counts "
+         "and lengths, appended/deleted/random bytes, double mutations; plus mutated packfiles into ObjectReceiver.Receive; Go run under recover, "
+         "20 s watchdog, GOMEMLIMIT; TotalAlloc delta bounded by perByte*len+slack; non-trivial = every mutated input; distinct = distinct (op, input)",
+    modelled="whole-buffer decoders of Model/Encoding.lean and Model/Chunked.lean (packfile, commit, table, block, string list, uint list): outcome class and decoded value compared with Go on hostile bytes",
+    assumptions=["s2.Decode's own allocation on a forged length header is outside the model (dependency)", "block index, pkt-line, table profile decoders are exercised but not modelled"],
+)
+PROPS["C18"] = dict(
+    lean_modules=["WrglModel.Props.C18"],
+    quick_n=450, thorough_n=6000,
+    rule="valid encoded streams of 9 kinds (packfile, commit, table, block, block index, string list, uint list, pkt-lines, table profile) decoded "
+         "from bytes.Reader, iotest.OneByteReader, HalfReader, DataErrReader and 4 (quick) / 10 (thorough) seeded random chunkings with and without "
+         "data+EOF in one call; non-trivial = stream longer than 8 bytes; distinct = distinct (op, input)",
+    modelled="PackfileReader (readVersion, decodeObjTypeAndLen, ReadObject) over a chunked reader with the extracted read mode of every site; the other decoders by their whole-buffer models",
+    assumptions=["io.ReadFull / io.ReadAll behave as documented", "HTTP, gzip and TLS are represented by arbitrary chunkings of the byte stream"],
 )
